@@ -274,6 +274,328 @@ static void run_list (unsigned long *par, int npar, char **ops, int nops)
   }
 }
 
+
+/* ---------- hash array ---------- */
+static int g_ha_n; static size_t *g_ha_pos;
+static int ha_visit_fn (void **v, const void *u)
+{
+  if (u != (const void *) &g_user_cookie) { printf ("BAD_USER_DATA\n"); exit (3); }
+  g_ha_pos[g_ha_n++] = (size_t) *v;
+  return 1;
+}
+
+static void run_harr (unsigned long *par, int npar, char **ops, int nops)
+{
+  int rip = (int) par[0], i;
+  sc_hash_array_t *ha;
+  g_hm = (unsigned) par[1]; g_ha = (unsigned) par[2]; g_hb = (unsigned) par[3];
+  ha = sc_hash_array_new (sizeof (hkey_t), hfn, eqfn, &g_user_cookie);
+  g_ha_pos = SC_ALLOC (size_t, nops + 1);
+  for (i = 0; i < nops; ++i) {
+    opr_t o; hkey_t k, *np; size_t pos = (size_t) -7, z; int r;
+    parse_op (ops[i], &o);
+    k.id = (unsigned) o.a[0]; k.tag = (unsigned) o.a[1];
+    if (i) osep ();
+    switch (o.op) {
+    case 'i':
+      np = (hkey_t *) sc_hash_array_insert_unique (ha, &k, &pos);
+      if (np != NULL) {
+        /* the new element is the last array slot */
+        int ok = (np == (hkey_t *) sc_array_index (&ha->a, ha->a.elem_count - 1)) && pos == ha->a.elem_count - 1;
+        *np = k;
+        oput ("i 1 %zx %zx %zx %d", pos, ha->a.elem_count, ha->h->elem_count, ok);
+      }
+      else oput ("i 0 %zx %zx %zx 1", pos, ha->a.elem_count, ha->h->elem_count);
+      break;
+    case 'I':
+      np = (hkey_t *) sc_hash_array_insert_unique (ha, &k, NULL);
+      if (np != NULL) *np = k;
+      oput ("I %d %zx %zx", np != NULL, ha->a.elem_count, ha->h->elem_count); break;
+    case 'l':
+      r = sc_hash_array_lookup (ha, &k, &pos);
+      if (r) oput ("l 1 %zx", pos); else oput ("l 0"); break;
+    case 'L':
+      r = sc_hash_array_lookup (ha, &k, NULL); oput ("L %d", r); break;
+    case 'f':
+      g_ha_n = 0; sc_hash_array_foreach (ha, ha_visit_fn);
+      oput ("f %x", g_ha_n);
+      for (r = 0; r < g_ha_n; ++r) oput (" %zx", g_ha_pos[r]);
+      break;
+    case 'v': oput ("v %d", sc_hash_array_is_valid (ha)); break;
+    case 'd':
+      oput ("d %zx", ha->a.elem_count);
+      for (z = 0; z < ha->a.elem_count; ++z) { np = (hkey_t *) sc_array_index (&ha->a, z); oput (" %x.%x", np->id, np->tag); }
+      break;
+    case 't': sc_hash_array_truncate (ha); oput ("t %zx %zx", ha->a.elem_count, ha->h->elem_count); break;
+    case 'c':
+      oput ("c %zx %zx | %zx %zx %zx", ha->a.elem_count, ha->h->elem_count, ha->h->slots->elem_count,
+            ha->h->resize_checks, ha->h->resize_actions); break;
+    default: oput ("UNKNOWN_OP");
+    }
+  }
+  if (rip) {
+    sc_array_t arr; size_t z; hkey_t *np;
+    sc_hash_array_rip (ha, &arr);
+    osep (); oput ("R %zx", arr.elem_count);
+    for (z = 0; z < arr.elem_count; ++z) { np = (hkey_t *) sc_array_index (&arr, z); oput (" %x.%x", np->id, np->tag); }
+    sc_array_reset (&arr);
+  }
+  else sc_hash_array_destroy (ha);
+  SC_FREE (g_ha_pos);
+}
+
+/* ---------- recycle array ---------- */
+static void run_rec (unsigned long *par, int npar, char **ops, int nops)
+{
+  size_t esz = par[0]; int i, j, k, nlive = 0;
+  sc_recycle_array_t ra;
+  size_t *lpos = SC_ALLOC (size_t, nops + 1); int *lval = SC_ALLOC (int, nops + 1);
+  sc_recycle_array_init (&ra, esz);
+  for (i = 0; i < nops; ++i) {
+    opr_t o; size_t pos = (size_t) -7; unsigned char *p; int val, ok, distinct;
+    parse_op (ops[i], &o);
+    if (i) osep ();
+    switch (o.op) {
+    case 'i':
+      if (o.n > 1 && o.a[1]) { p = (unsigned char *) sc_recycle_array_insert (&ra, NULL); pos = (size_t) (p - (unsigned char *) ra.a.array) / esz; }
+      else p = (unsigned char *) sc_recycle_array_insert (&ra, &pos);
+      ok = pos < ra.a.elem_count && p == (unsigned char *) sc_array_index (&ra.a, pos);
+      distinct = 1;
+      for (j = 0; j < nlive; ++j) if (lpos[j] == pos) distinct = 0;
+      memset (p, (int) o.a[0], esz);
+      lpos[nlive] = pos; lval[nlive] = (int) o.a[0]; ++nlive;
+      oput ("i %d %d %zx | %zx %zx %zx", distinct, ok, ra.elem_count, pos, ra.a.elem_count, ra.f.elem_count);
+      break;
+    case 'r':
+      k = (int) o.a[0]; pos = lpos[k];
+      p = (unsigned char *) sc_recycle_array_remove (&ra, pos);
+      ok = p == (unsigned char *) sc_array_index (&ra.a, pos);
+      if (check_fill (p, esz, &val)) oput ("r %x %d %zx | %zx", val, ok, ra.elem_count, pos);
+      else oput ("r corrupt %d %zx | %zx", ok, ra.elem_count, pos);
+      memmove (lpos + k, lpos + k + 1, sizeof (size_t) * (size_t) (nlive - k - 1));
+      memmove (lval + k, lval + k + 1, sizeof (int) * (size_t) (nlive - k - 1)); --nlive;
+      break;
+    case 'w':
+      k = (int) o.a[0]; memset (sc_array_index (&ra.a, lpos[k]), (int) o.a[1], esz); lval[k] = (int) o.a[1]; oput ("w"); break;
+    case 'g':
+      k = (int) o.a[0];
+      if (check_fill ((unsigned char *) sc_array_index (&ra.a, lpos[k]), esz, &val)) oput ("g %x", val); else oput ("g corrupt");
+      break;
+    case 'c':
+      ok = 1;
+      for (j = 0; j < nlive; ++j)
+        if (!check_fill ((unsigned char *) sc_array_index (&ra.a, lpos[j]), esz, &val) || val != lval[j]) ok = 0;
+      oput ("c %zx %zx %zx %d", ra.elem_count, ra.a.elem_count, ra.f.elem_count, ok); break;
+    case 'x': sc_recycle_array_reset (&ra); nlive = 0; oput ("x %zx", ra.elem_count); break;
+    default: oput ("UNKNOWN_OP");
+    }
+  }
+  sc_recycle_array_reset (&ra);
+  SC_FREE (lpos); SC_FREE (lval);
+}
+
+/* ---------- key-value store ---------- */
+struct kv_peek { sc_hash_t *hash; sc_mempool_t *value_allocator; };   /* layout of the opaque struct sc_keyvalue */
+#define KV_NSTR 16
+static const char *g_kv_strs[KV_NSTR] = { "s0", "s1", "s2", "s3", "s4", "s5", "s6", "s7", "s8", "s9", "sa", "sb", "sc", "sd", "se", "sf" };
+static int kv_str_index (const char *s) { int j; for (j = 0; j < KV_NSTR; ++j) if (s == g_kv_strs[j]) return j; return -1; }
+static char **g_kv_keys; static int g_kv_nkeys;
+static const char *kv_key (int withtype, int ty, unsigned id)
+{
+  /* a fresh copy per call: keys must be compared by content, never by pointer */
+  char *b = (char *) malloc (24);
+  if (withtype) snprintf (b, 24, "%c:k%x", "?igsp"[ty], id); else snprintf (b, 24, "k%x", id);
+  g_kv_keys[g_kv_nkeys++] = b;
+  return b;
+}
+static int kv_visit (const char *key, const sc_keyvalue_entry_type_t type, void *entry, const void *u)
+{
+  if (u != (const void *) &g_user_cookie) { printf ("BAD_USER_DATA\n"); exit (3); }
+  ++g_visit;
+  if (!g_print) return 1;
+  switch (type) {
+  case SC_KEYVALUE_ENTRY_INT: oput (" %s:1:%x", key + 1, (unsigned) *(int *) entry); break;
+  case SC_KEYVALUE_ENTRY_DOUBLE: oput (" %s:2:%x", key + 1, (unsigned) (int) (*(double *) entry * 2.)); break;
+  case SC_KEYVALUE_ENTRY_STRING: oput (" %s:3:%x", key + 1, (unsigned) kv_str_index (*(const char **) entry)); break;
+  case SC_KEYVALUE_ENTRY_POINTER: oput (" %s:4:%x", key + 1, (unsigned) (size_t) *(void **) entry); break;
+  default: oput (" %s:BADTYPE", key + 1);
+  }
+  return 1;
+}
+static sc_keyvalue_t *kv_build (int n, const char **k, int *v)
+{
+  /* type pattern of the argument list: int, double, string, pointer, int, string; a NULL key ends the list */
+  return sc_keyvalue_newf (0, n > 0 ? k[0] : NULL, v[0], n > 1 ? k[1] : NULL, v[1] * .5, n > 2 ? k[2] : NULL, g_kv_strs[v[2] % KV_NSTR],
+                           n > 3 ? k[3] : NULL, (void *) (size_t) v[3], n > 4 ? k[4] : NULL, v[4], n > 5 ? k[5] : NULL, g_kv_strs[v[5] % KV_NSTR], NULL);
+}
+
+static void run_kv (unsigned long *par, int npar, char **ops, int nops)
+{
+  int i, first = 0; sc_keyvalue_t *kv; struct kv_peek *pk;
+  const char *pkeys[6]; int pvals[6] = { 0, 0, 0, 0, 0, 0 };
+  g_kv_keys = (char **) malloc (sizeof (char *) * (size_t) (2 * nops + 8)); g_kv_nkeys = 0;
+  /* leading P operations are the arguments of sc_keyvalue_newf */
+  while (first < nops && first < 6 && ops[first][0] == 'P') {
+    opr_t o; parse_op (ops[first], &o);
+    pkeys[first] = kv_key (1, (int) o.a[0], (unsigned) o.a[1]); pvals[first] = (int) o.a[2]; ++first;
+  }
+  kv = first ? kv_build (first, pkeys, pvals) : sc_keyvalue_new ();
+  pk = (struct kv_peek *) kv;
+  for (i = 0; i < first; ++i) { if (i) osep (); oput ("P"); }
+  for (i = first; i < nops; ++i) {
+    opr_t o; int ty, st, res; unsigned id; const char *key, *sres;
+    parse_op (ops[i], &o);
+    if (i) osep ();
+    switch (o.op) {
+    case 'S':
+      ty = (int) o.a[0]; id = (unsigned) o.a[1]; key = kv_key (0, 0, id);
+      if (ty == 1) sc_keyvalue_set_int (kv, key, (int) o.a[2]);
+      else if (ty == 2) sc_keyvalue_set_double (kv, key, (int) o.a[2] * .5);
+      else if (ty == 3) sc_keyvalue_set_string (kv, key, g_kv_strs[o.a[2] % KV_NSTR]);
+      else sc_keyvalue_set_pointer (kv, key, (void *) (size_t) o.a[2]);
+      oput ("S"); break;
+    case 'G':
+      ty = (int) o.a[0]; id = (unsigned) o.a[1]; key = kv_key (0, 0, id);
+      if (ty == 1) oput ("G %x", (unsigned) sc_keyvalue_get_int (kv, key, (int) o.a[2]));
+      else if (ty == 2) oput ("G %x", (unsigned) (int) (sc_keyvalue_get_double (kv, key, (int) o.a[2] * .5) * 2.));
+      else if (ty == 3) { sres = sc_keyvalue_get_string (kv, key, g_kv_strs[o.a[2] % KV_NSTR]); oput ("G %x", (unsigned) kv_str_index (sres)); }
+      else oput ("G %x", (unsigned) (size_t) sc_keyvalue_get_pointer (kv, key, (void *) (size_t) o.a[2]));
+      break;
+    case 'K':
+      id = (unsigned) o.a[0]; st = (int) o.a[1]; key = kv_key (0, 0, id);
+      res = sc_keyvalue_get_int_check (kv, key, &st); oput ("K %x %x", (unsigned) res, (unsigned) st); break;
+    case 'E': oput ("E %x", (unsigned) sc_keyvalue_exists (kv, kv_key (0, 0, (unsigned) o.a[0]))); break;
+    case 'U': oput ("U %x", (unsigned) sc_keyvalue_unset (kv, kv_key (0, 0, (unsigned) o.a[0]))); break;
+    case 'F':
+      g_visit = 0; g_print = 0; sc_keyvalue_foreach (kv, kv_visit, &g_user_cookie);
+      oput ("F %x", g_visit);
+      g_print = 1; sc_keyvalue_foreach (kv, kv_visit, &g_user_cookie); break;
+    case 'C':
+      oput ("C %zx %zx | %zx %zx %zx", pk->hash->elem_count, pk->value_allocator->elem_count, pk->hash->slots->elem_count,
+            pk->hash->resize_checks, pk->hash->resize_actions); break;
+    default: oput ("UNKNOWN_OP");
+    }
+  }
+  sc_keyvalue_destroy (kv);
+  while (g_kv_nkeys > 0) free (g_kv_keys[--g_kv_nkeys]);
+  free (g_kv_keys);
+}
+
+/* ---------- AVL tree ---------- */
+typedef struct { int key; unsigned tag; } aitem_t;
+static int g_avl_mode, g_avl_freed;
+static int avl_cmp_fn (const void *a, const void *b)
+{
+  int x = ((const aitem_t *) a)->key, y = ((const aitem_t *) b)->key;
+  switch (g_avl_mode) {
+  case 1: return y - x;                                    /* descending */
+  case 2: return (x >> 2) - (y >> 2);                      /* classes of four keys are equal */
+  case 3: return x < y ? -1 : x > y;                       /* -1 / 0 / 1 */
+  default: return x - y;
+  }
+}
+static void avl_free_fn (void *item) { (void) item; ++g_avl_freed; }
+static void avl_visit_fn (void *item, void *data)
+{
+  const aitem_t *it = (const aitem_t *) item; ++*(int *) data;
+  if (g_print) oput (" %x.%x", (unsigned) it->key, it->tag);
+}
+/* structural self-check of the real tree: stored counts, parent pointers, search order, prev/next against in-order */
+static unsigned avl_chk (avl_tree_t * t, avl_node_t * n, avl_node_t * parent, avl_node_t ** last, int *ok, int *height)
+{
+  unsigned cl, cr; int hl = 0, hr = 0;
+  if (n == NULL) { *height = 0; return 0; }
+  if (n->parent != parent) *ok = 0;
+  cl = avl_chk (t, n->left, n, last, ok, &hl);
+  if (n->prev != *last) *ok = 0;
+  if (*last != NULL && (*last)->next != n) *ok = 0;
+  if (*last == NULL && t->head != n) *ok = 0;
+  if (*last != NULL && t->cmp ((*last)->item, n->item) >= 0) *ok = 0;
+  *last = n;
+  cr = avl_chk (t, n->right, n, last, ok, &hr);
+  if (n->count != cl + cr + 1) *ok = 0;
+  *height = 1 + (hl > hr ? hl : hr);
+  return cl + cr + 1;
+}
+
+static void run_avl (unsigned long *par, int npar, char **ops, int nops)
+{
+  int i, withfree = (int) par[1], expect_freed = 0;
+  aitem_t *arena = SC_ALLOC (aitem_t, nops + 1);
+  avl_tree_t *tree;
+  g_avl_mode = (int) par[0]; g_avl_freed = 0;
+  tree = avl_alloc_tree (avl_cmp_fn, withfree ? avl_free_fn : NULL);
+  for (i = 0; i < nops; ++i) {
+    opr_t o; aitem_t *k = &arena[i], *it; avl_node_t *node; int r, n;
+    parse_op (ops[i], &o);
+    k->key = (int) o.a[0]; k->tag = (unsigned) o.a[1];
+    if (i) osep ();
+    switch (o.op) {
+    case 'i':
+      node = avl_insert (tree, k);
+      oput ("i %d %x", node != NULL, avl_count (tree));
+      if (node != NULL && node->item != (void *) k) oput (" WRONG_NODE");
+      break;
+    case 'd':
+      it = (aitem_t *) avl_delete (tree, k);
+      if (it != NULL) oput ("d 1 %x.%x %x", (unsigned) it->key, it->tag, avl_count (tree)); else oput ("d 0 %x", avl_count (tree));
+      break;
+    case 's':
+      node = avl_search (tree, k);
+      if (node != NULL) { it = (aitem_t *) node->item; oput ("s 1 %x.%x", (unsigned) it->key, it->tag); } else oput ("s 0");
+      break;
+    case 'n':
+      node = NULL; r = avl_search_closest (tree, k, &node);
+      if (node != NULL) { it = (aitem_t *) node->item; oput ("n %d %x.%x", r < 0 ? -1 : r > 0, (unsigned) it->key, it->tag); } else oput ("n none %d", r);
+      break;
+    case 'a':
+      node = avl_at (tree, (unsigned) o.a[0]);
+      if (node != NULL) { it = (aitem_t *) node->item; oput ("a %x.%x", (unsigned) it->key, it->tag); } else oput ("a -");
+      break;
+    case 'x':
+      node = avl_search (tree, k);
+      if (node != NULL) oput ("x %x", avl_index (node)); else oput ("x -");
+      break;
+    case 'c': {
+      int ok = 1, h = 0; avl_node_t *last = NULL;
+      unsigned sz = avl_chk (tree, tree->top, NULL, &last, &ok, &h);
+      if (tree->tail != last) ok = 0;
+      if (tree->top == NULL && tree->head != NULL) ok = 0;
+      oput ("c %x %d | %x %d", avl_count (tree), ok && sz == avl_count (tree), tree->top ? (unsigned) ((aitem_t *) tree->top->item)->key : 0u, h);
+      break; }
+    case 'f':
+      n = 0; g_print = 0; avl_foreach (tree, avl_visit_fn, &n); oput ("f %x", n);
+      n = 0; g_print = 1; avl_foreach (tree, avl_visit_fn, &n); break;
+    case 'A': {
+      sc_array_t *arr = sc_array_new (sizeof (void *)); size_t z;
+      avl_to_array (tree, arr); oput ("A %zx", arr->elem_count);
+      for (z = 0; z < arr->elem_count; ++z) { it = *(aitem_t **) sc_array_index (arr, z); oput (" %x.%x", (unsigned) it->key, it->tag); }
+      sc_array_destroy (arr); break; }
+    case 't':
+      for (n = 0, node = tree->head; node != NULL; node = node->next) ++n;
+      oput ("t %x", n);
+      for (node = tree->head; node != NULL; node = node->next) { it = (aitem_t *) node->item; oput (" %x.%x", (unsigned) it->key, it->tag); }
+      break;
+    case 'b':
+      for (n = 0, node = tree->tail; node != NULL; node = node->prev) ++n;
+      oput ("b %x", n);
+      for (node = tree->tail; node != NULL; node = node->prev) { it = (aitem_t *) node->item; oput (" %x.%x", (unsigned) it->key, it->tag); }
+      break;
+    case 'e':
+      oput ("e");
+      if (tree->head) { it = (aitem_t *) tree->head->item; oput (" %x.%x", (unsigned) it->key, it->tag); } else oput (" -");
+      if (tree->tail) { it = (aitem_t *) tree->tail->item; oput (" %x.%x", (unsigned) it->key, it->tag); } else oput (" -");
+      break;
+    case 'z': avl_free_nodes (tree); oput ("z %x", avl_count (tree)); break;
+    default: oput ("UNKNOWN_OP");
+    }
+  }
+  (void) expect_freed;
+  avl_free_tree (tree);
+  osep (); oput ("Z %x", withfree ? g_avl_freed : 0);
+  SC_FREE (arena);
+}
+
 int main (void)
 {
   char *line = NULL; size_t cap = 0; ssize_t len;
@@ -299,6 +621,10 @@ int main (void)
     else if (!strcmp (cname, "pool")) run_pool (par, npar, ops, nops);
     else if (!strcmp (cname, "uc")) run_uc (par, npar, ops, nops);
     else if (!strcmp (cname, "list")) run_list (par, npar, ops, nops);
+    else if (!strcmp (cname, "harr")) run_harr (par, npar, ops, nops);
+    else if (!strcmp (cname, "rec")) run_rec (par, npar, ops, nops);
+    else if (!strcmp (cname, "kv")) run_kv (par, npar, ops, nops);
+    else if (!strcmp (cname, "avl")) run_avl (par, npar, ops, nops);
     else oput ("UNKNOWN_CONTAINER");
     if (nops) osep ();
     oput ("E %x", (unsigned) (sc_memory_status (-1) - before));
